@@ -304,6 +304,17 @@ def mon_c07(h, outs):
                     u = it.get("uid")
                     if u in dead:
                         fails.append(("c07:operation-on-dead-succeeded:%s" % op, "%s succeeded on destroyed %s" % (op, u), i))
+                # objects an operation reaches INDIRECTLY: every derivation object of DeriveKey, the wrapping key of Get
+                if op == "deriveKey":
+                    for u in it.get("uids") or []:
+                        if u in dead:
+                            fails.append(("c07:operation-on-dead-succeeded:deriveKey",
+                                          "DeriveKey succeeded although its derivation object %s is destroyed (identifiers "
+                                          "%s)" % (u, it.get("uids")), i))
+                if op == "get" and isinstance(it.get("wrap"), dict) and it["wrap"].get("enckey") in dead \
+                        and (d.get("wrapped") or it["wrap"].get("enckey") is not None):
+                    fails.append(("c07:operation-on-dead-succeeded:get-wrapping-key",
+                                  "Get succeeded with the destroyed wrapping key %s" % it["wrap"].get("enckey"), i))
             else:
                 u = it.get("uid")
                 if op in POLICY_OP and u in dead and r.get("reason") in (1, 12):
